@@ -309,6 +309,35 @@ def r4_generator(run, F):
            F.where(s), "documented dependency (if this arm ever generates code the rule above must be revisited)")
 
 
+def r4b_blocks_stay_blocks(run, F):
+    """The generator lowers `loop` only as the last statement of a Block (R4-LOOP-PEELED; a bare Statement::Loop is `unreachable!()`).
+    The stages between the parser and the generator therefore keep every block a block: the Block arm of the resolver's
+    Statement impl answers resolved::Statement::Block (or an error) on every path -- unwrapping a one-statement block turns
+    `{ loop; }` into a bare Loop."""
+    from rules import visit
+    b = F.body("<alpha::common::Statement as alpha::resolver::Resolvable>::resolve")
+    ms = hirq.matches_on_type(F.lib, b["hir"], "common::Statement", min_alts=6)
+    run.require(len(ms) >= 1, "resolver: match on the statement not found")
+    arms = hirq.arm_for(ms[0], "Statement::Block")
+    run.require(len(arms) >= 1, "resolver: Block arm not found")
+    bad = []
+    n = 0
+    for a in arms:
+        for l in visit.result_leaves(a["body"]):
+            x = hirq.unwrap_trivial(l)
+            n += 1
+            if x.get("k") == "Call" and (hirq.callee(x) or "").endswith(("FromResidual::from_residual", "::Err")):
+                continue
+            if x.get("k") == "Call" and (hirq.callee(x) or "").endswith("::Ok") and x.get("a"):
+                y = hirq.unwrap_trivial(x["a"][0])
+                what = norm_path(y.get("path") or y.get("ctor_of") or hirq.callee(y) or y.get("res") or "")
+                if what.endswith("resolved::Statement::Block"):
+                    continue
+            bad.append(l)
+    run.ob("R4-LOOP-PEELED", "the resolver keeps blocks blocks", n >= 1 and not bad, F.where(b, bad[0]) if bad else F.where(b, arms[0]),
+           "every value of the Block arm of the resolver is Ok(resolved::Statement::Block(..)) or an error (%d result expression(s), %d are something else)" % (n, len(bad)))
+
+
 def r5_visit(run, F):
     """T2: the syntax analyzer reaches every statement (a `loop` or naked branch in an unvisited block is never checked)."""
     C = F.lib
@@ -482,6 +511,7 @@ def check(run):
     r3_lint(run, F)
     r3b_lint_typestate(run, F)
     r4_generator(run, F)
+    r4b_blocks_stay_blocks(run, F)
     r5_visit(run, F)
     r6_pass_order(run, F)
     # the flags and the lint list live in per-module analyzer / linter objects: a second module must start from fresh ones,
